@@ -13,6 +13,7 @@
 -/
 import Bebop.Props.C15
 import Bebop.Props.C10
+import Bebop.Props.Canon
 import Bebop.Text.Grammar
 
 namespace Bebop.Text
@@ -43,5 +44,30 @@ theorem C11_tokenizer_tables_partial :
     Facts.tokenTreeSkips = [32, 9, 13] ∧
     Facts.keywordTable.all (fun e => (keywordKind (strOf e.1)).isSome) = true :=
   C10_token_tree_as_modelled
+
+/-! ### The parser inverts the printer (Bebop/Props/Canon.lean)
+
+  `CFile` is a schema AST covering: structs (readonly, opcode, deprecated fields, doc comments, trailing
+  comments), every field type (`T`, `T[]…`, `array[T]`, `map[K, V]`, nested), messages, enums (typed base,
+  decimal / hex / negative values, `[flags]` with literal members), unions with nested struct / message bodies,
+  integer / bool / string consts (incl. go_package), imports, mixed in any order, any number of definitions,
+  fields and members, any identifiers. `denote f` is the File it denotes; `laidOutF w f` its text under ANY
+  layout `w` (an arbitrary run of spaces / tabs / CRs before every token, non-empty where a separator is
+  needed); `canonTextF f` is the formatter's layout. Outside the sub-language: [flags] expressions, block
+  comments, tag comments, float / guid consts, trailing comments other than after struct fields. -/
+
+/-- For every schema of the sub-language and EVERY layout of its text, ReadFile (model) returns exactly the
+    File the schema denotes: every definition, field, type expression, index, enum value, const, import,
+    opcode, readonly marker, deprecation and doc comment, attached where it belongs, in source order — and the
+    result does not depend on horizontal whitespace or CRLF line ends. -/
+theorem C11_parser_returns_denoted_file_partial (f : CFile) (hf : CFileOk f) (w : Nat → List Byte)
+    (hw : LayoutOk w (fileLex false f)) : readFile (laidOutF w f) false = .ok (denote f) :=
+  C11_schema_layout_partial f hf w hw
+
+/-- Layout independence as a statement about two layouts of the same schema. -/
+theorem C11_layout_independent_partial (f : CFile) (hf : CFileOk f) (w₁ w₂ : Nat → List Byte)
+    (h₁ : LayoutOk w₁ (fileLex false f)) (h₂ : LayoutOk w₂ (fileLex false f)) :
+    readFile (laidOutF w₁ f) false = readFile (laidOutF w₂ f) false := by
+  rw [C11_schema_layout_partial f hf w₁ h₁, C11_schema_layout_partial f hf w₂ h₂]
 
 end Bebop.Text
